@@ -64,8 +64,22 @@ def cases(rng, tier):
                     # (normalised, but not in the right-canonical form the sweep needs); between repeated invocations the
                     # state may have been re-gauged by the caller
                     'prep': rng.choice(['none', 'none', 'left', 'left']), 'between': rng.choice(['none', 'left', 'right'])})
+    # local problems smaller than the number of Lanczos iterations (bond dimension one or two, short chains): the Krylov space of a
+    # local solve is exhausted before numiter_lanczos (finding F8)
+    for k in range({'quick': 24, 'thorough': 200, 'search': 60}[tier]):
+        out.append({'kind': rng.choice(['single', 'single', 'two']), 'model': rng.choice(['ising', 'ising', 'xxz', 'randherm']),
+                    'L': rng.choice([2, 2, 3, 4]), 'seed': rng.getrandbits(30), 'sweeps': rng.choice([3, 4]),
+                    'numiter': rng.choice([4, 5, 6]), 'repeat': 2, 'Dmax': rng.choice([1, 1, 2]), 'complete': False, 'scale': 1.0,
+                    'sdtype': rng.choice(['real', 'complex']), 'prep': rng.choice(['none', 'left']), 'between': rng.choice(['none', 'right'])})
     SR.mark_replay(out, {'quick': 24, 'thorough': 120, 'search': 0}[tier], 'sweeps')
     return out
+
+
+def corpus():
+    """pre-repair failing inputs of finding F8 (Lanczos iterations beyond the dimension of the local problem) -- run first"""
+    b = {'between': 'right', 'complete': False, 'kind': 'single', 'model': 'ising', 'prep': 'left', 'repeat': 2, 'scale': 1.0, 'sdtype': 'real'}
+    return [dict(b, Dmax=3, L=4, numiter=4, seed=485738843, sweeps=4), dict(b, Dmax=1, L=4, numiter=6, seed=886820026, sweeps=4),
+            dict(b, Dmax=1, L=2, numiter=6, seed=271037078, sweeps=3)]
 
 
 def sector_ground_energy(Hd, qd, L, qt):
